@@ -1,6 +1,6 @@
 #!/bin/bash
 # tools/run_all_mutants.sh [ID ...]  - run every stored mutant and seeded change against its check (quick tier) on scratch copies of /repo;
-# writes mutants/RESULTS.tsv (id, kind, name, verdict, seconds, first violation line)
+# writes mutants/RESULTS.tsv (id, kind, name, verdict, seconds, first violation line).  ONLY=<name> restricts the run to one mutant/seed of the given IDs (its row is replaced).
 cd /verif
 OUT=mutants/RESULTS.tsv
 IDS="$@"; [ -z "$IDS" ] && IDS=$(ls mutants | grep '^C[0-9][0-9]$')
@@ -9,6 +9,7 @@ for id in $IDS; do
   for p in mutants/$id/*.patch seeded/$id-*/patch.diff; do
     [ -f "$p" ] || continue
     case $p in seeded/*) kind=seeded; name=$(basename $(dirname $p));; *) kind=mutant; name=$(basename $p .patch);; esac
+    [ -n "$ONLY" ] && [ "$name" != "$ONLY" ] && continue
     t0=$(date +%s)
     out=$(KEEP_REPLAYS=/tmp/mutant-replays/$id/$name tools/mutant.sh $id $p quick 2>&1)
     t1=$(date +%s)
@@ -26,4 +27,5 @@ for id in $IDS; do
     fi
   done
 done
-if [ $# -eq 0 ]; then mv $TMP $OUT; else grep -v -E "^($(echo $IDS | tr ' ' '|'))	" $OUT 2>/dev/null > $TMP.2; cat $TMP.2 $TMP | sort > $OUT; rm -f $TMP $TMP.2; fi
+if [ -n "$ONLY" ]; then grep -v -P "^[^\t]*\t[^\t]*\t$ONLY\t" $OUT > $TMP.2; cat $TMP.2 $TMP | sort > $OUT; rm -f $TMP $TMP.2
+elif [ $# -eq 0 ]; then mv $TMP $OUT; else grep -v -E "^($(echo $IDS | tr ' ' '|'))	" $OUT 2>/dev/null > $TMP.2; cat $TMP.2 $TMP | sort > $OUT; rm -f $TMP $TMP.2; fi
